@@ -15,8 +15,7 @@
   field moves the picture.
 -/
 import EG.Lemmas.Polyline
-import EG.Lemmas.PMap
-import EG.Lemmas.TriangleExact
+import EG.Lemmas.PolylineSet
 import EG.Lemmas.RectTranslate
 import EG.Model.ThickPolyline
 namespace EG.C19
@@ -90,47 +89,6 @@ theorem polyline_points_translate (tr d : Pt) (vs : List Pt) :
 
 /-! ## The point set: the union of the segment lines -/
 
-/-- The segment lines of a polyline (vertices shifted by the `translate` field). -/
-def segments (tr : Pt) : List Pt → List Line
-  | [] => []
-  | [_] => []
-  | a :: b :: rest => ⟨a + tr, b + tr⟩ :: segments tr (b :: rest)
-
-theorem line_points_cons (l : Line) : Line.points l = l.start :: (Line.points l).tail := by
-  rw [Line.points_eq, List.range_succ_eq_map]
-  simp [Line.ptAt_zero]
-
-theorem later_segments_set (tr : Pt) (p : Pt) : ∀ (rest : List Pt) (b : Pt),
-    (p = b + tr ∨ p ∈ laterSegments tr (b :: rest)) ↔
-      (p = b + tr ∨ ∃ l ∈ segments tr (b :: rest), p ∈ Line.points l) := by
-  intro rest
-  induction rest with
-  | nil => intro b; simp [laterSegments, segments]
-  | cons c r ih =>
-    intro b
-    have hcons := line_points_cons ⟨b + tr, c + tr⟩
-    have hstop : c + tr ∈ Line.points ⟨b + tr, c + tr⟩ := Line.stop_mem_points ⟨b + tr, c + tr⟩
-    simp only [laterSegments, segments, List.mem_append, List.mem_cons, exists_eq_or_imp]
-    constructor
-    · rintro (h | h | h)
-      · exact Or.inl h
-      · exact Or.inr (Or.inl (List.mem_of_mem_tail h))
-      · rcases (ih c).mp (Or.inr h) with h' | h'
-        · right; left; rw [h']; exact hstop
-        · exact Or.inr (Or.inr h')
-    · rintro (h | h | h)
-      · exact Or.inl h
-      · rw [hcons] at h
-        rcases List.mem_cons.mp h with h | h
-        · exact Or.inl h
-        · exact Or.inr (Or.inl h)
-      · rcases (ih c).mpr (Or.inr h) with h' | h'
-        · rw [h', hcons] at *
-          rcases List.mem_cons.mp hstop with h'' | h''
-          · left; exact h''
-          · exact Or.inr (Or.inl h'')
-        · exact Or.inr (Or.inr h')
-
 /-- **A one-pixel polyline equals the union of its segment lines** (as a point set; the list form
 with each joint emitted once is `polyline_points`): `p` is a point of `points()` iff it is a point
 of `Line(v[i], v[i+1]).points()` for some `i`. For all vertex lists and every `translate`. -/
@@ -143,6 +101,7 @@ theorem polyline_point_set (tr : Pt) (vs : List Pt) (p : Pt) :
     rw [polyline_points]
     have hstop : b + tr ∈ Line.points ⟨a + tr, b + tr⟩ := Line.stop_mem_points ⟨a + tr, b + tr⟩
     have hl := later_segments_set tr p rest b
+    rw [← laterSegments_eq] at hl
     simp only [segments, List.mem_append, List.mem_cons, exists_eq_or_imp]
     constructor
     · rintro (h | h)
@@ -173,25 +132,6 @@ theorem one_pixel_polyline_is_points (pl : Polyline) (c : Color) :
     (Joins.drawStyled pl 1).map (polyCalls c) =
       some [Call.drawIter ((Polyline.points pl).map (fun p => (p, c)))] :=
   ⟨rfl, rfl, rfl⟩
-
-/-- The picture of one `draw_iter` call with a point list in one colour: exactly the points of the
-list inside the target's box, in that colour. -/
-theorem picture_of_points (B : Rect) (pts : List Pt) (c : Color) (p : Pt) :
-    PMap.empty.apply (clipWrites B (pts.map (fun q => (q, c)))) p =
-      if p ∈ pts ∧ B.contains p = true then some c else none := by
-  by_cases h : p ∈ pts ∧ B.contains p = true
-  · rw [if_pos h]
-    apply PMap.apply_const
-    · intro w hw
-      obtain ⟨hw', _⟩ := mem_clipWrites.mp hw
-      obtain ⟨q, _, rfl⟩ := List.mem_map.mp hw'
-      rfl
-    · exact ⟨(p, c), mem_clipWrites.mpr ⟨List.mem_map.mpr ⟨p, h.1, rfl⟩, h.2⟩, rfl⟩
-  · rw [if_neg h, PMap.apply_clip_eq_none]
-    rintro ⟨hB, c', hc'⟩
-    obtain ⟨q, hq, e⟩ := List.mem_map.mp hc'
-    simp only [Prod.mk.injEq] at e
-    exact h ⟨e.1 ▸ hq, hB⟩
 
 /-- **A stroke-width-1 styled polyline draws exactly the point set of `points()`**: on a target
 with box `B`, whether it implements the fill methods natively or through the trait defaults, a
